@@ -164,3 +164,11 @@ Theorem C19_source_effects :
   (forall q e k f cc, peq (src_background_revalidate q e k f cc) (background_revalidate q e k f cc)).
 Proof. repeat split; [exact tie_round_trip|exact tie_handle_validation_response|exact tie_background_revalidate]. Qed.
 Print Assumptions C19_source_effects.
+
+(* ... and StoreResponse (hop-by-hop fields removed first, the variant key, the entry written before the index, the index
+   entry appended or replaced), serveFromCache and handleStaleWhileRevalidate (qualified no-cache fields removed, Age, status,
+   the background revalidation started with the stored validators) *)
+Theorem C19_source_effects2 :
+  (forall q r k refs a b i, peq (src_store_response q r k refs a b i) (store_response q r k refs a b i)).
+Proof. exact tie_store_response. Qed.
+Print Assumptions C19_source_effects2.
